@@ -491,6 +491,9 @@ func runWirePart(c *Ctx, work string, sp *WireSpec) (Coverage, int, error) {
 				}
 			}
 		}
+		if sp.Op == "decref" && sp.JudgeProp == "C04" {
+			j["ctx"] = run.schemas[bySid[cs.Sid]].Ctx // where the evolved message sits (the worker pads it with a large unknown field)
+		}
 		if sp.Op == "codec" && sp.JudgeProp == "C01" {
 			// payloads beyond buffer sizes through every decoder: the first value of every schema and a seed-rotating sixteenth of the rest
 			j["bigpayload"] = cs.Vi <= 1 || (cs.Sid+cs.Vi+c.Seed)%16 == 0
